@@ -640,9 +640,9 @@ def read_graph(path):
         pos, kwonly, _ = _params(f)
         my_params = set(pos) | set(kwonly)
         accounted = set()      # ids of Name(use_graph_primitive) / config attribute nodes that have a meaning
-        state = {"site": None, "guard": False, "mentioned": False}
+        state = {"site": None, "guard": False, "mentioned": False, "early": None}
 
-        def handle_call(c, br, var):
+        def handle_call(c, br, var, guarded):
             g = c.func.id
             gpos, gkw, gdef = _params(fs[g])
             if any(isinstance(x, ast.Starred) for x in c.args) or any(k.arg is None for k in c.keywords):
@@ -693,18 +693,74 @@ def read_graph(path):
                 acy = "(AcyConst false)"
             gv = actual("graph") if ("graph" in gpos or "graph" in gkw) else None
             given = gv is not None and not (isinstance(gv, ast.Constant) and gv.value is None)
-            calls.append((c.lineno, c.col_offset, name, br, var, g, arg, acy, cbool(given)))
+            calls.append((c.lineno, c.col_offset, name, br, var, g, arg, acy, cbool(given), cbool(guarded)))
 
-        def scan(node, br, var="VAny"):
-            """everything inside a statement that is not a site / guard header"""
-            for k in ast.walk(node):
-                if isinstance(k, ast.Call) and isinstance(k.func, ast.Name) and k.func.id in has_ugp and k.func.id in fs:
-                    accounted.add(id(k.func))
-                    handle_call(k, br, var)
-                if isinstance(k, ast.Attribute) and k.attr in NATIVE_OPS:
-                    if not is_name(k.value, "Op"):
-                        fail("%s: native operator not referenced as Op.<NAME>" % name, k, path)
-                    emits.append((k.lineno, k.col_offset, name, br, NATIVE_OPS[k.attr]))
+        def recorded():
+            return len(calls) + len(emits)
+
+        def scan(node, br, var="VAny", guarded=False):
+            """everything inside a statement that is not a site / guard header.  [guarded]: the node
+            sits under a further data-dependent condition (if / while / conditional expression /
+            short-circuit operand / filtered comprehension / except handler)"""
+            if isinstance(node, ast.Call) and isinstance(node.func, ast.Name) and node.func.id in has_ugp and node.func.id in fs:
+                accounted.add(id(node.func))
+                handle_call(node, br, var, guarded)
+            if isinstance(node, ast.Attribute) and node.attr in NATIVE_OPS:
+                if not is_name(node.value, "Op"):
+                    fail("%s: native operator not referenced as Op.<NAME>" % name, node, path)
+                if guarded:
+                    fail("%s: native operator emitted under a data-dependent condition" % name, node, path)
+                emits.append((node.lineno, node.col_offset, name, br, NATIVE_OPS[node.attr]))
+            if isinstance(node, (ast.If, ast.While)):
+                scan(node.test, br, var, guarded)
+                scan_block(node.body, br, var, True)
+                scan_block(node.orelse, br, var, True)
+            elif isinstance(node, ast.IfExp):
+                scan(node.test, br, var, guarded)
+                scan(node.body, br, var, True)
+                scan(node.orelse, br, var, True)
+            elif isinstance(node, ast.BoolOp):
+                scan(node.values[0], br, var, guarded)
+                for v in node.values[1:]:
+                    scan(v, br, var, True)
+            elif isinstance(node, ast.Try):
+                scan_block(node.body, br, var, guarded)
+                for h in node.handlers:
+                    scan_block(h.body, br, var, True)
+                scan_block(node.orelse, br, var, True)
+                scan_block(node.finalbody, br, var, guarded)
+            elif isinstance(node, (ast.ListComp, ast.SetComp, ast.GeneratorExp, ast.DictComp)):
+                g2 = guarded or any(gen.ifs for gen in node.generators)
+                for child in ast.iter_child_nodes(node):
+                    scan(child, br, var, g2)
+            elif isinstance(node, (ast.For,)):
+                scan(node.target, br, var, guarded)
+                scan(node.iter, br, var, guarded)
+                scan_block(node.body, br, var, guarded)
+                scan_block(node.orelse, br, var, guarded)
+            elif isinstance(node, ast.With):
+                for it in node.items:
+                    scan(it, br, var, guarded)
+                scan_block(node.body, br, var, guarded)
+            else:
+                for child in ast.iter_child_nodes(node):
+                    scan(child, br, var, guarded)
+
+        def has_cond_return(st):
+            """a data-dependent statement that may leave the function early"""
+            if isinstance(st, (ast.If, ast.While, ast.For, ast.Try, ast.With)):
+                return any(isinstance(k, ast.Return) for k in ast.walk(st))
+            return False
+
+        def scan_block(stmts, br, var, guarded):
+            early = None
+            for st in stmts:
+                before = recorded()
+                scan(st, br, var, guarded)
+                if early is not None and recorded() != before:
+                    fail("%s: a call/emission follows a conditional return (line %d); not modelled" % (name, early), st, path)
+                if has_cond_return(st):
+                    early = st.lineno
 
         def walk_body(stmts, br, top):
             cur = br
@@ -765,12 +821,18 @@ def read_graph(path):
                         and isinstance(st.test.comparators[0], ast.Constant) and st.test.comparators[0].value is None
                         and "graph" in my_params):
                     # `if graph is None: <graph inferred> else: <graph given>`: two variants of the same helper
-                    for s2 in st.body:
-                        scan(s2, cur, "VInferred")
-                    for s2 in st.orelse:
-                        scan(s2, cur, "VExplicit")
+                    before = recorded()
+                    scan_block(st.body, cur, "VInferred", False)
+                    scan_block(st.orelse, cur, "VExplicit", False)
+                    if state["early"] is not None and recorded() != before:
+                        fail("%s: a call/emission follows a conditional return (line %d); not modelled" % (name, state["early"]), st, path)
                     continue
+                before = recorded()
                 scan(st, cur)
+                if state["early"] is not None and recorded() != before:
+                    fail("%s: a call/emission follows a conditional return (line %d); not modelled" % (name, state["early"]), st, path)
+                if has_cond_return(st):
+                    state["early"] = st.lineno
 
         body = body_nodoc(f)
         walk_body(body, "BrTop", True)
@@ -854,7 +916,7 @@ def render(t):
     f.append("  t_entries := " + clist(
         "(%s, %s)" % (cs(q), ("EntryModule " + cs(v)) if k == "module" else ("EntrySubprocess " + cs(v))) for q, (k, v) in t["entries"]))
     f.append("  t_sites := " + clist("mk_site %s %s %s" % (cs(n), fl, cbool(na)) for n, fl, na in t["sites"]))
-    f.append("  t_calls := " + clist("mk_call %s %s %s %s %s %s %s" % (cs(a), b, v, cs(c), d, e, g) for a, b, v, c, d, e, g in t["calls"]))
+    f.append("  t_calls := " + clist("mk_call %s %s %s %s %s %s %s %s" % (cs(a), b, v, cs(c), d, e, g, h) for a, b, v, c, d, e, g, h in t["calls"]))
     f.append("  t_emits := " + clist("mk_emit %s %s %s" % (cs(a), b, c) for a, b, c in t["emits"]))
     f.append("  t_raises := " + clist("mk_raise %s %s %s" % (cs(a), b, cs(c)) for a, b, c in t["raises"]))
     L.append(";\n".join(f))
